@@ -19,6 +19,36 @@ NONE = z3.Const("None!", Ref)
 _cache = {}
 
 
+def AND(*xs):
+    """z3.And that never produces a nullary / unary connective (cvc5 rejects `(and)`)."""
+    flat = []
+    for x in xs:
+        if isinstance(x, (list, tuple)):
+            flat.extend(x)
+        else:
+            flat.append(x)
+    flat = [f for f in flat if not (isinstance(f, bool) and f is True)]
+    if not flat:
+        return z3.BoolVal(True)
+    if len(flat) == 1:
+        return flat[0] if not isinstance(flat[0], bool) else z3.BoolVal(flat[0])
+    return z3.And(*flat)
+
+
+def OR(*xs):
+    flat = []
+    for x in xs:
+        if isinstance(x, (list, tuple)):
+            flat.extend(x)
+        else:
+            flat.append(x)
+    if not flat:
+        return z3.BoolVal(False)
+    if len(flat) == 1:
+        return flat[0]
+    return z3.Or(*flat)
+
+
 class Ty:
     __slots__ = ("kind", "args")
 
@@ -39,6 +69,9 @@ class Ty:
             return self.args[0]
         if self.kind in ("enum", "val"):
             return "%s[%s]" % (self.kind.capitalize(), self.args[0])
+        n = 2 if self.kind == "dict" else 1
+        if self.kind in ("list", "deque", "set", "dict") and len(self.args) > n:
+            return "%s[%s]#%s" % (self.kind.capitalize(), ",".join(map(repr, self.args[:n])), self.args[n])
         return "%s[%s]" % (self.kind.capitalize(), ",".join(map(repr, self.args)))
 
     @property
@@ -54,6 +87,15 @@ class Ty:
     @property
     def elem(self):
         return self.args[0]
+
+    @property
+    def region(self):
+        """Containers in different regions never alias (ownership by static type)."""
+        if self.kind in ("list", "deque", "set") and len(self.args) > 1:
+            return "#" + self.args[1]
+        if self.kind == "dict" and len(self.args) > 2:
+            return "#" + self.args[2]
+        return ""
 
 
 INT, BOOL, STR, FLOAT, BYTES, NONE_T, ANY = (Ty(k) for k in ("int", "bool", "str", "float", "bytes", "none", "any"))
@@ -91,6 +133,18 @@ def _parse(s):
                 break
             raise ValueError("bad type args in %r" % s)
     low = name.lower()
+    region = ""
+    if rest.startswith("#"):
+        j = 1
+        while j < len(rest) and (rest[j].isalnum() or rest[j] == "_"):
+            j += 1
+        region, rest = rest[1:j], rest[j:].lstrip()
+    if region:
+        if low in ("list", "deque", "set"):
+            return Ty(low, args[0], region), rest
+        if low == "dict":
+            return Ty("dict", args[0], args[1], region), rest
+        raise ValueError("region on non-container type %r" % name)
     if not args:
         if low in ("int", "bool", "str", "float", "bytes", "none", "any"):
             return Ty(low), rest
@@ -101,6 +155,8 @@ def _parse(s):
         return Ty(low, args[0]), rest
     if low == "dict":
         return Ty("dict", args[0], args[1]), rest
+    if low == "arr":
+        return Ty("arr", args[0], args[1]), rest
     if low == "tuple":
         return Ty("tuple", *args), rest
     if low in ("enum", "val"):
@@ -152,6 +208,8 @@ def sort_of(ty):
             dt.declare("mk_%s_%d" % (name, n), *[("f%d_%s_%d" % (i, name, n), sort_of(a)) for i, a in enumerate(ty.args)])
             _cache[key] = dt.create()
         return _cache[key]
+    if k == "arr":
+        return z3.ArraySort(sort_of(ty.args[0]), sort_of(ty.args[1]))
     if k == "opt":
         inner = ty.args[0]
         if inner.is_reflike:
